@@ -2,6 +2,8 @@
 
 #[cfg(all(target_os = "windows", feature = "gui"))]
 use crate::gui::win::*;
+#[cfg(kanata_verif)]
+use crate::verif_seam::{self as std, instant, parking_lot};
 use anyhow::{bail, Result};
 use kanata_parser::sequences::*;
 use log::{error, info};
